@@ -245,7 +245,9 @@ def evaluate__normalize_space(self: XPathFunction, context: ta.ContextType = Non
         arg = self.string_value(self.get_argument(context, default_to_context=True, default=''))
     else:
         arg = self.get_argument(context, default_to_context=True, default='', cls=str)
-    return ' '.join(arg.strip().split())
+    # Only the XML whitespace characters (#x20, #x9, #xD, #xA) are separators
+    arg = arg.replace('\t', ' ').replace('\n', ' ').replace('\r', ' ')
+    return ' '.join(x for x in arg.split(' ') if x)
 
 
 @method(function('starts-with', nargs=2,
